@@ -397,7 +397,7 @@ def family(tier):
         ("fol", _desc([(["ab"], "day"), (["ab", "bc"], "Monday"), (["ab", "a"], "do")], "abc"), dict(hold=3)),
         ("sft", _desc([(["ab"], "Hi"), (["ab", "a"], "him")], "ab", ["rsft"]), dict(hold=3)),
         ("ssp", _desc([(["ab"], "hi")], ["a", "b", "comm"], ss="full"), dict(hold=3)),
-        ("spc", _desc([([" a"], "and"), ([" ab"], "about")], ["spc", "a", "b"]), dict(hold=3)),
+        ("spc", _desc([([" a"], "and"), ([" ab"], "about")], ["spc", "a", "b"], ss="add-space-only"), dict(hold=3)),
     ]
     if tier == "quick":
         return q
